@@ -206,6 +206,12 @@ class CrossProductComp(ExplicitComponent):
             b = inputs[product['b_name']]
 
             # Use the following for sparse partials
+            if product['a_name'] == product['b_name']:
+                # the same input is used for both operands: a x a = 0 identically
+                partials[product['c_name'], product['a_name']] = \
+                    np.zeros(a.size * 2, dtype=a.dtype)
+                continue
+
             partials[product['c_name'], product['a_name']] = \
                 np.einsum('...j,ji->...i', b, self._minus_k).ravel()
             partials[product['c_name'], product['b_name']] = \
